@@ -87,6 +87,7 @@ func lemmaRTInteger(tag int, v int32, rest []byte) (x int32, err error, out, wb 
 //@ lemma lemmaWRWInteger
 //@   requires 0 <= tag && tag < 1<<24 && hdOK(in)
 //@   ensures err1 == nil ==> err2 == nil && v2 == v1 && bytes_eq(w1, w2)
+//@   cover err1 == nil
 
 func lemmaWRWInteger(tag int, in []byte) (v1, v2 int32, err1, err2 error, w1, w2 []byte) {
 	dec, err := newTTLVReader(in)
@@ -138,6 +139,7 @@ func lemmaRTLongInteger(tag int, v int64, rest []byte) (x int64, err error, out,
 //@ lemma lemmaWRWLongInteger
 //@   requires 0 <= tag && tag < 1<<24 && hdOK(in)
 //@   ensures err1 == nil ==> err2 == nil && v2 == v1 && bytes_eq(w1, w2)
+//@   cover err1 == nil
 
 func lemmaWRWLongInteger(tag int, in []byte) (v1, v2 int64, err1, err2 error, w1, w2 []byte) {
 	dec, err := newTTLVReader(in)
@@ -189,6 +191,7 @@ func lemmaRTEnum(tag int, v uint32, rest []byte) (x uint32, err error, out, wb [
 //@ lemma lemmaWRWEnum
 //@   requires 0 <= tag && tag < 1<<24 && hdOK(in)
 //@   ensures err1 == nil ==> err2 == nil && v2 == v1 && bytes_eq(w1, w2)
+//@   cover err1 == nil
 
 func lemmaWRWEnum(tag int, in []byte) (v1, v2 uint32, err1, err2 error, w1, w2 []byte) {
 	dec, err := newTTLVReader(in)
@@ -240,6 +243,7 @@ func lemmaRTBool(tag int, v bool, rest []byte) (x bool, err error, out, wb []byt
 //@ lemma lemmaWRWBool
 //@   requires 0 <= tag && tag < 1<<24 && hdOK(in)
 //@   ensures err1 == nil ==> err2 == nil && v2 == v1 && bytes_eq(w1, w2)
+//@   cover err1 == nil
 
 func lemmaWRWBool(tag int, in []byte) (v1, v2 bool, err1, err2 error, w1, w2 []byte) {
 	dec, err := newTTLVReader(in)
@@ -291,6 +295,7 @@ func lemmaRTBitmask(tag int, v int32, rest []byte) (x int32, err error, out, wb 
 //@ lemma lemmaWRWBitmask
 //@   requires 0 <= tag && tag < 1<<24 && hdOK(in)
 //@   ensures err1 == nil ==> err2 == nil && v2 == v1 && bytes_eq(w1, w2)
+//@   cover err1 == nil
 
 func lemmaWRWBitmask(tag int, in []byte) (v1, v2 int32, err1, err2 error, w1, w2 []byte) {
 	dec, err := newTTLVReader(in)
@@ -342,6 +347,7 @@ func lemmaRTDateTime(tag int, v time.Time, rest []byte) (x time.Time, err error,
 //@ lemma lemmaWRWDateTime
 //@   requires 0 <= tag && tag < 1<<24 && hdOK(in)
 //@   ensures err1 == nil ==> err2 == nil && unix(v2) == unix(v1) && bytes_eq(w1, w2)
+//@   cover err1 == nil
 
 func lemmaWRWDateTime(tag int, in []byte) (v1, v2 time.Time, err1, err2 error, w1, w2 []byte) {
 	dec, err := newTTLVReader(in)
@@ -394,6 +400,7 @@ func lemmaRTInterval(tag int, v time.Duration, rest []byte) (x time.Duration, er
 //@ lemma lemmaWRWInterval
 //@   requires 0 <= tag && tag < 1<<24 && hdOK(in)
 //@   ensures err1 == nil ==> err2 == nil && v2 == v1 && bytes_eq(w1, w2)
+//@   cover err1 == nil
 
 func lemmaWRWInterval(tag int, in []byte) (v1, v2 time.Duration, err1, err2 error, w1, w2 []byte) {
 	dec, err := newTTLVReader(in)
@@ -448,6 +455,7 @@ func lemmaRTTextString(tag int, v string, rest []byte) (x string, err error, out
 //@ lemma lemmaWRWTextString
 //@   requires 0 <= tag && tag < 1<<24 && hdOK(in)
 //@   ensures err1 == nil ==> err2 == nil && bytes_eq(v2, v1) && bytes_eq(w1, w2)
+//@   cover err1 == nil
 
 func lemmaWRWTextString(tag int, in []byte) (v1, v2 string, err1, err2 error, w1, w2 []byte) {
 	dec, err := newTTLVReader(in)
@@ -502,6 +510,7 @@ func lemmaRTByteString(tag int, v []byte, rest []byte) (x []byte, err error, out
 //@ lemma lemmaWRWByteString
 //@   requires 0 <= tag && tag < 1<<24 && hdOK(in)
 //@   ensures err1 == nil ==> err2 == nil && bytes_eq(v2, v1) && bytes_eq(w1, w2)
+//@   cover err1 == nil
 
 func lemmaWRWByteString(tag int, in []byte) (v1, v2 []byte, err1, err2 error, w1, w2 []byte) {
 	dec, err := newTTLVReader(in)
